@@ -34,7 +34,7 @@ TIERS = {
     "C13": {"quick": (90, 100), "thorough": (6000, 1500)},
     "C14": {"quick": (50, 100), "thorough": (5000, 1500)},
     "C15": {"quick": (350, 100), "thorough": (15000, 1500)},
-    "C20": {"quick": (110, 110), "thorough": (6000, 1500)},
+    "C20": {"quick": (100, 90), "thorough": (6000, 1500)},
 }
 
 
@@ -299,6 +299,10 @@ def finish(prop, tier, seed, W, procs, tmp, known, t0, nruns, budget):
         "oracle_checks=%d wall=%.1fs exec=%.1fs%s" % (
             prop, tier, seed, len(recs), ndirected, len(nontrivial), checks,
             wall, exec_wall, " [wall budget hit]" if capped else ""))
+  slow = sorted(recs, key=lambda r: -r.get("wall", 0))[:4]
+  print("slowest runs: %s; workers finished after %s s" % (
+      ", ".join("%s=%.0fs" % (r.get("label"), r.get("wall", 0)) for r in slow),
+      sorted(round(d.get("wall", 0)) for d in dones)[-3:]))
   print("faults fired: %s" % json.dumps(dict(sorted(faults.items()))))
   print("probes: %s" % json.dumps(dict(sorted(probes.items()))))
   for s in sorted(known_seen):
